@@ -91,6 +91,43 @@ pub fn handle_rename(storage: &mut EngineModel, db: usize, parts: &[RespFrame]) 
 //@@ body
 //@@ end
 
+// ---- script path (C12): the GETSET arm of execute_string hands the command to the direct handler, the RENAME arm of execute_key calls the engine
+// as the direct handler does — same effect, same reply
+impl RespFrame {
+    /// `RespFrame::from_string("<NAME>")` (the command-name slot of the rebuilt frame; no handler looks at it): some frame
+    #[verifier::external_body]
+    pub fn from_string(s: &str) -> (r: Self) { unimplemented!() }
+}
+/// MODEL of UnifiedCommandExecutor (the implementation scripts reach through redis.call): the storage engine model
+pub struct UnifiedCommandExecutor { pub storage: EngineModel }
+impl UnifiedCommandExecutor {
+//@@ unit exec_getset arm src/storage/commands/executor.rs UnifiedCommandExecutor::execute_string "StringCommand::GetSet { key, value }"
+//@@   params drop "&self" add "&mut self"
+//@@   rewrite RT "use crate::storage::commands::strings::handle_getset;" ""
+//@@   rewrite RT "handle_getset(&self.storage, db, &frames)" "handle_getset(&mut self.storage, db, frames.as_slice())"
+    fn exec_getset(&mut self, db: usize, key: Vec<u8>, value: Vec<u8>) -> (r: Result<RespFrame>)
+        ensures
+            match ds_get(old(self).storage.ds@, db as int, key@) {
+                Some(DV::List(_)) | Some(DV::Set(_)) | Some(DV::Hash(_)) | Some(DV::ZSet) | Some(DV::Stream) => !(r matches Ok(f) && !(f is Error)) && final(self).storage.ds@ == old(self).storage.ds@,
+                Some(DV::Str(b)) => r is Err || (cmd_ok(r, final(self).storage.ds@, (RV::Bulk(Some(b)), old(self).storage.ds@.insert((db as int, key@), DV::Str(value@)))) && final(self).storage.ttl@ == old(self).storage.ttl@.remove((db as int, key@))),
+                None => r is Err || (cmd_ok(r, final(self).storage.ds@, (RV::Bulk(None), old(self).storage.ds@.insert((db as int, key@), DV::Str(value@)))) && final(self).storage.ttl@ == old(self).storage.ttl@.remove((db as int, key@))),
+            },
+//@@ body
+//@@ end
+//@@ unit exec_rename arm src/storage/commands/executor.rs UnifiedCommandExecutor::execute_key "KeyCommand::Rename { old_key, new_key }"
+//@@   params drop "&self" add "&mut self"
+    fn exec_rename(&mut self, db: usize, old_key: Vec<u8>, new_key: Vec<u8>) -> (r: Result<RespFrame>)
+        ensures
+            if !old(self).storage.ds@.contains_key((db as int, old_key@)) {
+                !(r matches Ok(f) && !(f is Error)) && final(self).storage.ds@ == old(self).storage.ds@ && final(self).storage.ttl@ == old(self).storage.ttl@
+            } else {
+                (r matches Ok(f) && f is SimpleString)
+                && final(self).storage.ds@ == old(self).storage.ds@.remove((db as int, old_key@)).insert((db as int, new_key@), old(self).storage.ds@[(db as int, old_key@)])
+            },
+//@@ body
+//@@ end
+}
+
 //@@ unit handle_append fn src/storage/commands/strings.rs handle_append
 //@@   params drop "storage: &Arc<StorageEngine>" add "storage: &mut EngineModel"
 //@@   rewrite R3
